@@ -93,7 +93,7 @@ var Names = []string{"a", "b", "c", "id", "n-1", "x"}
 var Values = []string{
 	"x", "12", "abc", "a.b", "%41", "%2F", "a%2Fb", "%zz", "%", "\xc3\xa9", "x y", "..", "",
 	"a+b", "xz-12", "ab", "a", "b", "users", "v1", "2021", "05", "%E4%BD%A0", "%4", "q%25", "A",
-	"a%20b+c", "%2B+", "1+1%3D2", "c++", "+", "%2b%2B", "a;b", "a,b=c", "k=v&x", "caf\xe9", "\xff\xfe", "010", "a.", "a..",
+	"%2541", "%252F", "a%2525", "%25zz", "a%20b+c", "%2B+", "1+1%3D2", "c++", "+", "%2b%2B", "a;b", "a,b=c", "k=v&x", "caf\xe9", "\xff\xfe", "010", "a.", "a..",
 }
 
 // RouteOpts tunes the derivation generator.
@@ -241,6 +241,9 @@ func Route(t *rapid.T, o RouteOpts) model.Route {
 	max := o.MaxSegs
 	if max <= 0 {
 		max = 4
+	}
+	if rapid.IntRange(0, 29).Draw(t, "root") == 0 {
+		return model.Route{Segs: []model.Seg{{}}} // the root route "/"
 	}
 	n := rapid.IntRange(1, max).Draw(t, "nsegs")
 	used := map[string]bool{}
